@@ -344,18 +344,76 @@ pub fn run(args: &Args) {
     }
     let mut run = Run::new("c12", &args.out);
     dcep_cases(&mut run, &mut rng, args.tier_thorough);
-    // channel-type mapping: every combination
-    for ord in [true, false] { for mr in [None, Some(0u16), Some(3), Some(65535)] { for ml in [None, Some(0u16), Some(500), Some(65535)] {
-        let s = ChanSpec { id: 1, ordered: ord, negotiated: false, max_retransmits: mr, max_lifetime: ml, label: String::new(), protocol: String::new(), max_payload: None };
-        // what send_dcep_open computes (re-derived from the channel object through the real marshal path is covered by the live runs)
-        let ct: u8 = if ord { if mr.is_some() { 1 } else if ml.is_some() { 2 } else { 0 } } else if mr.is_some() { 0x81 } else if ml.is_some() { 0x82 } else { 0x80 };
-        let rp: u32 = mr.map(|v| v as u32).or(ml.map(|v| v as u32)).unwrap_or(0);
-        let back_ord = ct & 0x80 == 0;
-        let back_mr = if ct & 3 == 1 { Some(rp as u16) } else { None };
-        let back_ml = if ct & 3 == 2 { Some(rp as u16) } else { None };
-        let ou = |v: Option<u16>| v.map(|x| x.to_string()).unwrap_or("-".into());
-        run.case("chantype", &format!("{},{},{}", s.ordered as u8, ou(mr), ou(ml)), &format!("{ct},{rp} {},{},{}", back_ord as u8, ou(back_mr), ou(back_ml)), true);
-    } } }
+    // channel-type mapping, every combination, through the real code on both ends: `send_dcep_open` on a channel object
+    // (what it queues is read back with the real `DataChannelOpen::unmarshal`), then that DCEP message goes as a DATA
+    // chunk into a second transport's `handle_packet` → `handle_dcep`, and the channel it creates is read back
+    {
+        let rt = tokio::runtime::Builder::new_current_thread().enable_all().build().unwrap();
+        let mut port = 56_000u16;
+        for ord in [true, false] { for mr in [None, Some(0u16), Some(3), Some(65535)] { for ml in [None, Some(0u16), Some(500), Some(65535)] {
+            let spec = ChanSpec { id: 1, ordered: ord, negotiated: false, max_retransmits: mr, max_lifetime: ml, label: "l".into(), protocol: String::new(), max_payload: None };
+            let ou = |v: Option<u16>| v.map(|x| x.to_string()).unwrap_or("-".into());
+            let out = rt.block_on(async {
+                let tx = Endpoint::new(port, port + 1, true, &EpCfg::default(), &[spec.clone()]).await;
+                let mut rx = Endpoint::new(port + 1, port, false, &EpCfg::default(), &[]).await;
+                let sent = tx.sctp.send_dcep_open(&tx.dcs[0]).await;
+                let q = tx.sctp.verif_snapshot().outbound_queue;
+                let out = match (sent, q.iter().find(|c| c.3 == 50)) {
+                    (Ok(()), Some((_sid, _ssn, _fl, _ppid, payload))) => {
+                        match DataChannelOpen::unmarshal(payload) {
+                            Ok(o) => {
+                                // the receiving end: one DATA chunk (B|E, unordered as DCEP is sent), TSN = cumulative + 1
+                                let cum = rx.sctp.verif_snapshot().cumulative_tsn_ack;
+                                let mut pk = vec![];
+                                pk.extend_from_slice(&(port).to_be_bytes()); pk.extend_from_slice(&(port + 1).to_be_bytes()); pk.extend_from_slice(&0u32.to_be_bytes()); pk.extend_from_slice(&[0; 4]);
+                                let len = 16 + payload.len();
+                                pk.extend_from_slice(&[0, 7]); pk.extend_from_slice(&(len as u16).to_be_bytes());
+                                pk.extend_from_slice(&cum.wrapping_add(1).to_be_bytes()); pk.extend_from_slice(&1u16.to_be_bytes()); pk.extend_from_slice(&0u16.to_be_bytes()); pk.extend_from_slice(&50u32.to_be_bytes());
+                                pk.extend_from_slice(payload); while pk.len() % 4 != 0 { pk.push(0); }
+                                let c = crc32c::crc32c(&pk).to_le_bytes(); pk[8..12].copy_from_slice(&c);
+                                let _ = rx.sctp.verif_handle_packet(Bytes::from(pk)).await;
+                                rx.adopt_new();
+                                let got = rx.channels.lock().iter().filter_map(|w| w.upgrade()).find(|d| d.id == 1)
+                                    .map(|d| format!("{},{},{}", d.ordered as u8, ou(d.max_retransmits), ou(d.max_packet_life_time))).unwrap_or("none".into());
+                                format!("{},{} {got}", o.channel_type, o.reliability_parameter)
+                            }
+                            _ => "unparsable".to_string(),
+                        }
+                    }
+                    _ => "not-sent".to_string(),
+                };
+                tx.shutdown(); rx.shutdown();
+                out
+            });
+            port += 2;
+            run.case("chantype", &format!("{},{},{}", ord as u8, ou(mr), ou(ml)), &out, true);
+        } } }
+    }
+    // the third Close emitter, `PeerConnection::close`: channels created on a real PeerConnection, closed by the
+    // application and / or by close() (twice): never more than one Close per channel
+    {
+        let rt = tokio::runtime::Builder::new_current_thread().enable_all().build().unwrap();
+        for variant in 0..3 {
+            let counts: Vec<usize> = rt.block_on(async {
+                let pc = rustrtc::PeerConnection::new(rustrtc::RtcConfiguration::default());
+                let dcs: Vec<_> = ["a", "b"].iter().filter_map(|l| pc.create_data_channel(l, None).ok()).collect();
+                if variant == 1 { pc.close(); }
+                pc.close();
+                if variant == 2 { pc.close(); pc.close(); }
+                tokio::time::sleep(Duration::from_millis(20)).await;
+                let mut counts = vec![];
+                for dc in &dcs {
+                    let mut n = 0;
+                    while let Some(Some(ev)) = futures::FutureExt::now_or_never(tokio::task::unconstrained(dc.recv())) { if matches!(ev, DataChannelEvent::Close) { n += 1; } }
+                    counts.push(n);
+                }
+                counts
+            });
+            if counts.iter().any(|n| *n > 1) { run.fail("close:more-than-once", &format!("pcclose {variant}"), &format!("PeerConnection::close x{}: Close events per channel {:?}", [1, 2, 3][variant], counts)); }
+            if counts.len() != 2 || counts.iter().any(|n| *n == 0) { run.fail("close:none-from-peer-connection-close", &format!("pcclose {variant}"), &format!("{counts:?}")); }
+            run.count("pcclose_runs");
+        }
+    }
     let cs = cases(args, &mut rng);
     let nthreads = std::env::var("VERIF_THREADS").ok().and_then(|v| v.parse().ok()).unwrap_or(6usize);
     let next = std::sync::atomic::AtomicUsize::new(0);
